@@ -20,6 +20,7 @@ RULE = (
     "of (tree, history); non-trivial = at least one decorator that owns a field and one status event."
 )
 REQUIRED = {
+    "mon:fanout.targets-in-listed-order": 1000,
     "mon:leaf.log==composed-transfer": 3000,
     "mon:caller.arguments-not-mutated": 3000,
     "mon:sink.no-late-mutation-of-received-objects": 1000,
@@ -79,6 +80,9 @@ def build(node, leaves, path, log):
                                           discard=(t for t in discard) if discard else None)
         if mode == "set":
             add, discard = set(add), set(discard)
+        if mode == "positional":
+            # the way doc/for-framework-folk.rst constructs one: StreamTagger([targets], add, discard)
+            return testtools.StreamTagger(kids, add or None, discard or None)
         t = testtools.StreamTagger(kids, add=add or None, discard=discard or None)
         if mode == "mutated":
             del add[:], discard[:]
@@ -167,15 +171,25 @@ def x_tree(ctx, case):
                           lambda: {"leaf": i, "dequeued": repr(d), "fresh object": fresh, **detail()})
                 drained[i].append((name, d))
 
+    def in_listed_order(mark, what):
+        # one call fans out to the targets in the order they were listed (depth first): the recording sinks' turns
+        # in the shared log never go backwards
+        turns = [int(e.payload["sink"][1:]) for e in log.events[mark:] if e.payload and e.payload.get("sink")]
+        ctx.check(turns == sorted(turns), "fanout.targets-in-listed-order",
+                  lambda: {"call": what, "sinks reached, in order": turns, **detail()})
+
     for op in history:
         drain()
+        mark = len(log.events)
         if op == "start":
             root.startTestRun()
+            in_listed_order(mark, "startTestRun")
             for i, (kind, path, obj) in enumerate(leaves):
                 if kind != "failfast":
                     expected[i].append(("startTestRun", None))
         elif op == "stop":
             root.stopTestRun()
+            in_listed_order(mark, "stopTestRun")
             for i, (kind, path, obj) in enumerate(leaves):
                 if kind != "failfast":
                     expected[i].append(("stopTestRun", None))
@@ -202,6 +216,7 @@ def x_tree(ctx, case):
                 refused = e
             ctx.check(refused is None, "decorator.accepts-the-call",
                       lambda: {"event": op, "error": repr(refused), **detail()})
+            in_listed_order(mark, "status")
             after = datetime.datetime.now(UTC)
             windows.append((before, after))
             ok = (kw.get("test_tags") is caller_tags and type(caller_tags) is snap_type
@@ -290,6 +305,7 @@ def unary_wrappers(child):
     yield ["tagger", ["a", "b"], ["x", "a"], [child]]
     yield ["tagger", ["a", "b"], ["x"], [child], "iter"]
     yield ["tagger", ["a"], ["x"], [child], "mutated"]
+    yield ["tagger", ["a"], ["x"], [child], "positional"]
     yield ["stamp", child]
 
 
@@ -338,7 +354,7 @@ def random_tree(rng, depth):
     if r < 0.75:
         pool = ["a", "b", "x", "y"]
         return ["tagger", rng.sample(pool, rng.randint(0, 2)), rng.sample(pool, rng.randint(0, 2)), kids(),
-                rng.choice(["list", "set", "iter", "mutated"])]
+                rng.choice(["list", "set", "iter", "mutated", "positional"])]
     return ["stamp", random_tree(rng, depth - 1)]
 
 
